@@ -16,17 +16,22 @@ Definition is_lazy (pop : population) (n : name) : bool :=
    SortOrderedComponents; the non-lazy ones are created (as components) one after the other, each
    seeing only the processors appended before it *)
 
-Definition proc_participants (vt : variant) (s : scenario) : list participant :=
+(* the enumeration the registries produce for this start: with the repair it is the name order whatever
+   the map yields, so the normalised scenario (and with it the whole start) does not depend on the oracle *)
+Definition normalise (vt : variant) (s : scenario) : scenario :=
+  mkScn (s_pop s) (s_faults s) (s_loader_fail s) (s_app s) (enum_order vt (s_oracle s) (s_pop s)).
+
+Definition proc_participants (s : scenario) : list participant :=
   flat_map (fun n => match get_comp (s_pop s) n with
                      | Some c => match c_proc c with
                                  | Some (cls, _) => [mkPart n cls]
                                  | None => []
                                  end
                      | None => []
-                     end) (enum_order vt (s_oracle s) (s_pop s)).
+                     end) (s_oracle s).
 
-Definition sorted_procs (vt : variant) (s : scenario) : list name :=
-  map pid (sort_participants (proc_participants vt s)).
+Definition sorted_procs (s : scenario) : list name :=
+  map pid (sort_participants (proc_participants s)).
 
 Fixpoint prepare_loop (vt : variant) (s : scenario) (ps : list name) (st : fstate) : res fstate :=
   match ps with
@@ -40,7 +45,7 @@ Fixpoint prepare_loop (vt : variant) (s : scenario) (ps : list name) (st : fstat
   end.
 
 Definition prepare (vt : variant) (s : scenario) (st : fstate) : res fstate :=
-  prepare_loop vt s (sorted_procs vt s) (set_scanned st).
+  prepare_loop vt s (sorted_procs s) (set_scanned st).
 
 (* ---- Refresh (factory.go :92-118): all non-lazy definitions, names sorted -------------------------- *)
 
@@ -92,7 +97,7 @@ Definition call_runners (s : scenario) (st : fstate) : res fstate :=
 
 (* ---- App.Run ------------------------------------------------------------------------------------------ *)
 
-Definition run (vt : variant) (s : scenario) : res fstate :=
+Definition run_core (vt : variant) (s : scenario) : res fstate :=
   if s_loader_fail s then Fail (FErr ECallback) finit
   else match prepare vt s finit with
        | Ok st1 =>
@@ -103,19 +108,23 @@ Definition run (vt : variant) (s : scenario) : res fstate :=
        | Fail k st1 => Fail k st1
        end.
 
+Definition run (vt : variant) (s : scenario) : res fstate := run_core vt (normalise vt s).
+
 (* ---- GetComponentByName after the start (one per name, in the given order) ---------------------- *)
 
 Inductive lookup_out : Type :=
 | LVer (v : ver)
 | LFail (k : failkind).
 
-Fixpoint lookups (vt : variant) (s : scenario) (ns : list name) (st : fstate)
+Fixpoint lookups_core (vt : variant) (s : scenario) (ns : list name) (st : fstate)
   : fstate * list lookup_out :=
   match ns with
   | [] => (st, [])
   | n :: r =>
     match do_get vt s (fuel_of s) st n with
-    | Ok (st1, v) => let (st2, outs) := lookups vt s r st1 in (st2, LVer v :: outs)
-    | Fail k st1 => let (st2, outs) := lookups vt s r st1 in (st2, LFail k :: outs)
+    | Ok (st1, v) => let (st2, outs) := lookups_core vt s r st1 in (st2, LVer v :: outs)
+    | Fail k st1 => let (st2, outs) := lookups_core vt s r st1 in (st2, LFail k :: outs)
     end
   end.
+
+Definition lookups (vt : variant) (s : scenario) := lookups_core vt (normalise vt s).
